@@ -68,7 +68,7 @@ class C11(flow.Spec):
                '{Return, Sleep, Stall, LNot, LAnd, LOr, LEqual, LGreater, LLess, Break, Continue, BreakPoint} and every operand an integer constant or a string '
                '(e.g. Method(_STA){Return(0x0F)}); here resolveMethodCalls / connectNonNamedObjArg / attachSiblingsAsArgs do real work (exact pass-5 layer Aml/ParserFragF9Calls.v). '
                'F9 does NOT subsume F3..F8/TN8 (no Scope directives, one table); NOT proved for statements: operands that are expressions, names, Local/Arg objects, operators with a Target (Store, Add, ...), '
-               'If/Else/While, statements together with Scope directives or several tables. wf_program rejects the constant Zero in a Target / SuperName / SimpleName position (the byte 00 there is the NullName, spelled ANull; C11_null_target_one_spelling). Outside the proved fragments and the lexical level the statement '
+               'If/Else/While, statements together with Scope directives or several tables. wf_program rejects the constant Zero in a Target / SuperName / SimpleName position (the byte 00 there is the NullName, spelled ANull; C11_null_target_one_spelling) and ANull anywhere else (C11_null_only_in_target_positions). Fragment F10 (Local/Arg operands, operators with a Target, SuperName-first operators, nested operator expressions) is NOT proved: the model meets ns on 16 representative shapes by computation (C11_parse_encode_F10_shapes), the generator draws all of them. Outside the proved fragments and the lexical level the statement '
                'is TESTED, not proved - by the correspondence (Python encoder = Coq encode, Python ns = Coq ns, wf_program accepts every generated '
                'program, model parser = real parser incl. the Coq namespace view = the harness view) and by the monitor on the real parser',
                'productions inside the tested fragment: DefScope (incl. Scope(\\)), Device, Processor, PowerRes, ThermalZone, Method (0-7 args, nested names), Name, '
